@@ -86,3 +86,89 @@ def metaOK (op : Op) (now : Int) (pre post : DB) (res : Out) : Bool :=
         | none => fresh)
 
 end Redka.Spec
+
+namespace Redka.Spec
+
+open Redka
+
+/-- every key name an operation mentions -/
+def opKeys : Op → List Bytes
+  | .strGet k | .strIncr k _ | .strIncrFloat k _ | .strSet k _ | .strSetExpires k _ _ | .strSetWith k _ _ => [k]
+  | .strGetMany ks => ks
+  | .strSetMany items => items.map (·.1)
+  | .keyCount ks | .keyDelete ks => ks
+  | .keyExists k | .keyExpire k _ | .keyExpireAt k _ | .keyGet k | .keyPersist k => [k]
+  | .keyRename a b | .keyRenameNX a b => [a, b]
+  | .keyDeleteAll | .keyDeleteExpired _ | .keyKeys _ | .keyLen | .keyRandom _ | .keyScan .. => []
+  | .listDelete k _ | .listDeleteBack k _ _ | .listDeleteFront k _ _ | .listGet k _ | .listInsertAfter k _ _
+  | .listInsertBefore k _ _ | .listLen k | .listPopBack k | .listPopFront k | .listPushBack k _
+  | .listPushFront k _ | .listRange k _ _ | .listSet k _ _ | .listTrim k _ _ => [k]
+  | .listPopBackPushFront a b => [a, b]
+  | .setAdd k _ | .setDelete k _ | .setExists k _ | .setItems k | .setLen k | .setPop k _ | .setRandom k _
+  | .setScan k _ _ _ => [k]
+  | .setDiff ks | .setInter ks | .setUnion ks => ks
+  | .setDiffStore d ks | .setInterStore d ks | .setUnionStore d ks => d :: ks
+  | .setMove a b _ => [a, b]
+  | .hashDelete k _ | .hashExists k _ | .hashFields k | .hashGet k _ | .hashGetMany k _ | .hashIncr k _ _
+  | .hashIncrFloat k _ _ | .hashItems k | .hashLen k | .hashScan k _ _ _ | .hashSet k _ _ | .hashSetMany k _
+  | .hashSetNotExists k _ _ | .hashValues k => [k]
+  | .zAdd k _ _ | .zAddMany k _ | .zCount k _ _ | .zDelete k _ | .zDeleteRank k _ _ | .zDeleteScore k _ _
+  | .zGetRank k _ | .zGetRankRev k _ | .zGetScore k _ | .zIncr k _ _ | .zLen k | .zRangeRank k _ _ _
+  | .zRangeScore k _ _ _ _ _ | .zScan k _ _ _ => [k]
+  | .zInter ks _ | .zUnion ks _ => ks
+  | .zInterStore d ks _ | .zUnionStore d ks _ => d :: ks
+
+/-- the type an operation works on; `none` for the type-agnostic key operations -/
+def opType : Op → Option Int
+  | .strGet _ | .strGetMany _ | .strIncr .. | .strIncrFloat .. | .strSet .. | .strSetExpires ..
+  | .strSetMany _ | .strSetWith .. => some TString
+  | .keyCount _ | .keyDelete _ | .keyDeleteAll | .keyDeleteExpired _ | .keyExists _ | .keyExpire ..
+  | .keyExpireAt .. | .keyGet _ | .keyKeys _ | .keyLen | .keyPersist _ | .keyRandom _ | .keyRename ..
+  | .keyRenameNX .. | .keyScan .. => none
+  | .listDelete .. | .listDeleteBack .. | .listDeleteFront .. | .listGet .. | .listInsertAfter ..
+  | .listInsertBefore .. | .listLen _ | .listPopBack _ | .listPopBackPushFront .. | .listPopFront _
+  | .listPushBack .. | .listPushFront .. | .listRange .. | .listSet .. | .listTrim .. => some TList
+  | .setAdd .. | .setDelete .. | .setDiff _ | .setDiffStore .. | .setExists .. | .setInter _
+  | .setInterStore .. | .setItems _ | .setLen _ | .setMove .. | .setPop .. | .setRandom .. | .setScan ..
+  | .setUnion _ | .setUnionStore .. => some TSet
+  | .hashDelete .. | .hashExists .. | .hashFields _ | .hashGet .. | .hashGetMany .. | .hashIncr ..
+  | .hashIncrFloat .. | .hashItems _ | .hashLen _ | .hashScan .. | .hashSet .. | .hashSetMany ..
+  | .hashSetNotExists .. | .hashValues _ => some THash
+  | .zAdd .. | .zAddMany .. | .zCount .. | .zDelete .. | .zDeleteRank .. | .zDeleteScore .. | .zGetRank ..
+  | .zGetRankRev .. | .zGetScore .. | .zIncr .. | .zInter .. | .zInterStore .. | .zLen _ | .zRangeRank ..
+  | .zRangeScore .. | .zScan .. | .zUnion .. | .zUnionStore .. => some TZSet
+
+/-- some key the operation names is held (live) by another type: the C06 situation -/
+def crossType (op : Op) (now : Int) (pre : DB) : Bool :=
+  match opType op with
+  | none => false
+  | some t => (opKeys op).any (fun k => match pre.liveKey k now with
+    | some r => r.ty != t
+    | none => false)
+
+/-- some key the operation names carries an expiry (reached or not), or the operation itself is
+about expiry: the C10 situations -/
+def expiryInvolved (op : Op) (pre : DB) : Bool :=
+  (match op with
+   | .keyExpire .. | .keyExpireAt .. | .keyPersist _ | .keyDeleteExpired _ | .strSetExpires .. => true
+   | .strSetWith _ _ o => o.ttl != 0 || o.atMs.isSome || o.keepTTL
+   | .keyLen | .keyKeys _ | .keyRandom _ | .keyScan .. | .keyDeleteAll => pre.keys.any (fun r => r.etime.isSome)
+   | _ => false) ||
+  (opKeys op).any (fun k => match pre.findKey k with
+    | some r => r.etime.isSome
+    | none => false)
+
+/-- which parts of the final tables differ between two runs (model vs implementation) -/
+def diffParts (a b : DB) : List String :=
+  let ka := a.keys
+  let kb := b.keys
+  (if ka.map (fun r => (r.id, r.key, r.ty)) != kb.map (fun r => (r.id, r.key, r.ty)) then ["keys"] else []) ++
+  (if ka.map (·.version) != kb.map (·.version) then ["version"] else []) ++
+  (if ka.map (·.mtime) != kb.map (·.mtime) then ["mtime"] else []) ++
+  (if ka.map (·.etime) != kb.map (·.etime) then ["etime"] else []) ++
+  (if ka.map (·.len) != kb.map (·.len) then ["len"] else []) ++
+  (if decide (a.strs = b.strs) && decide (a.lists = b.lists) && decide (a.sets = b.sets) &&
+      decide (a.hashes = b.hashes) && decide (a.zsets = b.zsets) then [] else ["children"]) ++
+  (if a.fk != b.fk then ["fk"] else [])
+
+end Redka.Spec
